@@ -961,3 +961,4 @@ EXPLANATION += (' Round 6: ' + 'SPLIT/touching-is-not-crossing: every comparison
 EXPLANATION += (' Round 7: ' + 'STATE/in-force-is-latest (the state carried into the first piece is not taken with a first-match search over ascending events).')
 EXPLANATION += (' Rounds 9-10: ' + 'SPLIT/time/initial is semantic (the running values before the loop fold to 4/4 and the default qpm; a value read off the input is located); STATE/carry-after-break (a closing carry in for-else is skipped by a break whose condition does not involve the piece index).')
 EXPLANATION += (' Round 11: ' + 'ORD/assumes-sorted shared from C12 for the splitters and _extract_subsequences.')
+EXPLANATION += (' Round 12: ' + 'PITFALL/mergefrom-as-assignment over the splitters.')
